@@ -92,12 +92,16 @@ CHECKS["C04"] = Spec(
     gen_kw=dict(sweep_p=0.7, pmax_choices=(1, 60, 100, 100, 300, 300), imax_choices=(1, 40, 100, 300)),
     # index-GC heavy variant: many buckets, one flush per write or two, several records per index file, repeated cycles
     variants=[(0.35, dict(weights=dict(put=30, remove=8, flush=30, igc=22, get=6, pgc=3, reopen=2),
-                          gen_kw=dict(sweep_p=0.5, imax_choices=(64, 100, 150, 200), pmax_choices=(300, 1 << 30), first=(3, 4, 5, 6, 7, 8), nops=(30, 80))))],
+                          gen_kw=dict(sweep_p=0.5, imax_choices=(64, 100, 150, 200), pmax_choices=(300, 1 << 30), first=(3, 4, 5, 6, 7, 8), nops=(30, 80)))),
+              # time-limited cycles: stopped after 0-8 context polls, resumed by later (limited or unlimited) cycles; all replayed on the model
+              (0.3, dict(weights=dict(put=34, remove=12, flush=18, igc=5, igcb=14, pgc=4, pgcl=9, pgcb=1, get=6, reopen=2),
+                         gen_kw=dict(sweep_p=0.5, imax_choices=(40, 64, 100, 150), pmax_choices=(60, 100, 300), nops=(30, 80))))],
     keep=("res", "tbl", "img"),
     witnesses=["F3-relocate-two-records", "F4-freelist-entry-for-unflushed-block", "F5-freelist-entry-in-missing-file",
                "F11-stale-record-relocated-after-crash", "F16-relocation-vs-writer"],
-    nontrivial=lambda t, r: _count_ops(t, ("pgc", "igc")) >= 2 and _count_ops(t, ("put",)) >= 4 and _count_ops(t, ("flush",)) >= 1,
-    rule=_KEYS_RULE + "index GC (both scan-free flags) and primary GC (low-use 10..94) at random positions incl. between a write and its flush, "
+    nontrivial=lambda t, r: _count_ops(t, ("pgc", "igc", "igcb", "pgcl")) >= 2 and _count_ops(t, ("put",)) >= 4 and _count_ops(t, ("flush",)) >= 1,
+    rule=_KEYS_RULE + "index GC (both scan-free flags) and primary GC (low-use 10..94) at random positions incl. between a write and its flush, a third of the histories with "
+         "time-limited cycles (igcb: the context fails after 0-8 polls; pgcl: the limit starts after the freelist has been applied, as in production) that later cycles resume, "
          "small file limits so several non-current files exist; every key read back after most cycles; bucket table and byte images of all "
          "files compared with the model after every cycle; non-trivial = >= 2 GC cycles, >= 4 puts, >= 1 flush; distinct = by history text",
 )
@@ -305,7 +309,7 @@ def _fc_check(ctx):
                   "traces_validated_against_impl": len(terms) - len(mism), "correspondence_mismatches": len(mism), "oracle_failures": len(bad_oracle),
                   "samples": [{"sequence": s} for s in seqs[:3]], "coq_replay_s": round(coq_s, 1)}
 
-def run_conc(scenarios, wd, tag):
+def run_conc(scenarios, wd, tag, proc_timeout=60):
     """Run concdrive scenarios in parallel. Returns list of (scenario_text, result_dict_or_None, raw)."""
     from concurrent.futures import ThreadPoolExecutor
     d = os.path.join(wd, tag); os.makedirs(d, exist_ok=True)
@@ -313,11 +317,11 @@ def run_conc(scenarios, wd, tag):
         p = os.path.join(d, "s%04d.scn" % i)
         open(p, "w").write(scenarios[i])
         try:
-            r = subprocess.run([os.path.join(C.BIN, "concdrive"), p], env=dict(os.environ, GOLOG_LOG_LEVEL="fatal"), stdout=subprocess.PIPE, stderr=subprocess.PIPE, text=True, timeout=60)
+            r = subprocess.run([os.path.join(C.BIN, "concdrive"), p], env=dict(os.environ, GOLOG_LOG_LEVEL="fatal"), stdout=subprocess.PIPE, stderr=subprocess.PIPE, text=True, timeout=proc_timeout)
         except subprocess.TimeoutExpired:
             # the driver bounds every wait of its own (timeout_ms); only a call of the store made by the controller itself
             # (final reads, Flush, Close) that never returns can keep it alive
-            return scenarios[i], {"stuck": ["<driver: a final Get/Flush/Close of the controller never returned within 60 s>"], "threads": [], "events": [],
+            return scenarios[i], {"stuck": ["<driver: a final Get/Flush/Close of the controller never returned within %d s>" % proc_timeout], "threads": [], "events": [],
                                   "final": {}, "flushes_in_free_run": 0, "hung": True}, "driver killed after 60 s"
         try:
             return scenarios[i], json.loads(r.stdout), r.stderr[-500:]
@@ -331,7 +335,8 @@ def confirm_stuck(txt, r, wd):
     """A 'never returned' verdict rests on a timeout, and a loaded machine can exceed one: before it is reported the same scenario is run again, alone,
     with four times the time allowance (twice); the verdict stands only if a call is still blocked then."""
     if r.get("hung"):
-        return True
+        _, r2, _ = run_conc([txt], wd, "confirm", proc_timeout=400)[0]      # alone, with a long allowance
+        return bool(r2 is not None and (r2.get("hung") or r2["stuck"]))
     txt2 = re.sub(r"timeout_ms=(\d+)", lambda m: "timeout_ms=%d" % (4 * int(m.group(1))), txt)
     for i in range(2):
         _, r2, _ = run_conc([txt2], wd, "confirm")[0]
@@ -439,7 +444,7 @@ def _model_scenario(rng):
         th.append(("T%d" % i, "put %s %s" % (k, rng.choice(vals)) if kind == "put" else "%s %s" % (kind, k)))
     names = [t[0] for t in th]
     sched = [rng.choice(names) for _ in range(rng.randint(4, 16))] + names * 6      # everybody finishes inside the schedule
-    return "cfg bits=8 imax=1048576 pmax=1048576 timeout_ms=3000 model=1\n" + "\n".join(setup) + ("\n" if setup else "") + \
+    return "cfg bits=8 imax=1048576 pmax=1048576 timeout_ms=3000 quiet_ms=3000 model=1\n" + "\n".join(setup) + ("\n" if setup else "") + \
            "".join("thread %s %s\n" % t for t in th) + "schedule " + " ".join(sched) + "\n"
 
 def _model_case(txt, r):
@@ -466,8 +471,8 @@ def _model_case(txt, r):
                 calls.append("QRemove %s" % _coq_bytes(f[3]))
             else:
                 return None
-    if r["stuck"]:
-        return None
+    if r["stuck"] or r.get("quiet_timeouts", 1) or r.get("unfinished_at_free_run", 1):
+        return None      # a thread ran concurrently with the next one (slow machine): the event log is no longer the order of the atomic steps
     idx = {n: i for i, n in enumerate(names)}
     sched = []
     for e in r["events"] or []:
@@ -1024,10 +1029,10 @@ CHECKS["C07"] = Spec(
     gen_kw=dict(pmax_choices=(1, 60, 100, 300), imax_choices=(1, 40, 64, 100, 150, 300), imm_p=0.1),
     variants=[(0.3, dict(weights=dict(put=30, remove=8, flush=30, igc=22, get=4, pgc=4, reopen=3),
                          gen_kw=dict(imax_choices=(52, 64, 76, 100, 150), pmax_choices=(300, 1 << 30), first=(3, 4, 5, 6, 7, 8), nops=(30, 80)))),
-              (0.15, dict(weights=dict(put=40, remove=14, flush=12, pgc=6, pgcb=8, igcb=6, igc=3, reopen=3)))],
+              (0.3, dict(weights=dict(put=40, remove=14, flush=12, pgc=5, pgcl=7, pgcb=2, igcb=8, igc=4, reopen=3)))],
     keep=("res", "tbl", "img"),
     aspects=("map", "fsck", "dir", "rl"),
-    nontrivial=lambda t, r: _count_ops(t, ("flush",)) >= 2 and _count_ops(t, ("pgc", "igc", "pgcb", "igcb")) >= 1 and _count_ops(t, ("put",)) >= 4,
+    nontrivial=lambda t, r: _count_ops(t, ("flush",)) >= 2 and _count_ops(t, ("pgc", "igc", "pgcb", "igcb", "pgcl")) >= 1 and _count_ops(t, ("put",)) >= 4,
     rule=_KEYS_RULE + "flushes, both collectors (also budget-interrupted), reopen, writers slipping into a Flush; after every Flush, every GC cycle and every reopen an independent reader "
          "of the formats (harness/fsck) checks on the REAL files against the live bucket table: every file is a chain of records; every non-empty bucket points at a complete, non-deleted "
          "record list tagged with it in an existing file >= FirstFile; entries sorted, prefix-free, distinct locations; every entry names a complete, non-deleted primary record of the right size "
@@ -1038,7 +1043,7 @@ CHECKS["C13"] = Spec(
     prop_file="C13.v",
     weights=dict(put=40, get=4, remove=16, flush=12, atflush=4, pgc=9, pgcb=0, igc=2, reopen=4),
     gen_kw=dict(pmax_choices=(1, 60, 100, 300, 1 << 30), imm_p=0.3),
-    variants=[(0.25, dict(weights=dict(put=40, get=4, remove=16, flush=14, pgc=6, pgcb=8, igc=1, reopen=3)))],
+    variants=[(0.25, dict(weights=dict(put=40, get=4, remove=16, flush=14, pgc=6, pgcl=6, pgcb=3, igc=1, reopen=3)))],
     keep=("res", "img"),
     aspects=("map", "dir"),
     witnesses=["C13-freelist-exact", "F12b-writer-inside-commit-then-crash"],
